@@ -45,20 +45,28 @@ class Prop:
     trusted = ["harness/mut.py + harness/mut_c07.py (replayer, observation, pointer-level copy/independence oracle)"]
     manifest = dict(
         text=("Machine-checked theorems (Coq 8.16, no axioms) about the copy family of the executable model of the mutating API "
-              "(Mut/Machine.v: add(node) shallow/deep, add(tree), copy_to with/without add_self and every `before`, Tree.copy, Node.copy): "
-              "by induction on the recursive copy, the new branch equals the source branch once node identities are stripped (same data "
-              "objects, data_ids, kinds, order, shape; the top node of a copy made by add_child gets the kind= argument or the default kind, "
-              "the pinned behaviour D47); the new identities are exactly next, next+1, ... (fresh, distinct, as many as source nodes); a copy "
-              "carries no metadata; the tree built by Tree.copy/Node.copy is well-formed; the source tree state is identical after the step "
-              "(another tree) or every row (parent, node, payload) of it is unchanged with one inserted block (same tree); and the frame "
-              "theorem over histories: every operation, whatever its outcome, leaves every tree it does not work on exactly as it was, hence "
-              "any history on the copy leaves the source unchanged and vice versa.  The model is tied to /repo on every run: the "
-              "implementation's full observable state of all trees after every step must equal the model's, and a pointer-walking oracle "
-              "checks `is`/`is not` for nodes, data objects, child lists and metadata dicts on every copy and every later step."),
+              "(Mut/Machine.v: add(node) shallow/deep, add(tree), copy_to with/without add_self and every `before`, Tree.copy, Node.copy). "
+              "FAITHFUL, by induction on the recursive copy: the new branch equals the source branch once node identities are stripped (same data "
+              "objects, data_ids, kinds, order, shape; the top node of a copy made through add_child gets the kind= argument or the default kind "
+              "- the pinned behaviour D47, whose unrestricted statement is refuted by a vm_compute witness); add(tree) and copy_to(add_self=False) "
+              "put the copies as ONE block in SOURCE order at the position `before` names (appended / prepended / at the index list.insert "
+              "resolves / directly in front of the named child), also when source and target are the same tree. FRESH: the new identities are "
+              "exactly next, next+1, ... in pre-order (all >= next, distinct, as many as source nodes); a copy carries no metadata; the tree built "
+              "by Tree.copy/Node.copy and the world stay well-formed. SOURCE UNCHANGED: another tree - the state is identical; same tree - every "
+              "row (parent, node, payload) is unchanged in unchanged order, the copy is one inserted block, and the source branch is the identical "
+              "value unless the (shallow) copy was put inside it. INDEPENDENT: every operation, whatever its outcome, leaves every tree it does not "
+              "work on exactly as it was (frame over histories), and no operation reads a tree outside its footprint = the tree it works on + the "
+              "copy source (locality: same result and same tree in any two worlds agreeing on the footprint and the allocator) - so a history "
+              "on the copy neither changes the source nor depends on it, and vice versa. The model is tied to /repo on every run: the "
+              "implementation's full observable state of all trees after every step must equal the model's, and a pointer-walking oracle checks "
+              "`is`/`is not` for nodes, data objects, child lists and metadata dicts on every copy and every later step."),
         note=("Trusted: Coq kernel + vm_compute; hand-written model Mut/Machine.v (tied by the correspondence only); harness/mut.py, mut_c07.py. "
               "The model describes the code as repaired by fixes/ (series in fixes/SERIES.txt) incl. D20-D23, D06/D44 and D70 (found here: "
-              "add(tree, before=node/negative/clamped index) inserted the copies in reverse order).  Sharing of mutable structure cannot "
-              "be expressed in the value model; it is excluded by the oracle's identity checks on every generated case, not by a theorem."),
+              "add(tree, before=node / negative / clamped index) inserted the copies in reverse order). Known finding D47 (top node of a typed "
+              "copy gets the default kind; pinned by the suite) is modelled, excluded explicitly in the theorems, expected exactly by the oracle "
+              "and reported as KNOWN-FINDING. Sharing of mutable structure cannot be expressed in the value model; it is excluded by the oracle's "
+              "identity checks on every generated case, not by a theorem. Metadata is not copied by the library (a copy starts without) - the "
+              "property statement does not ask for it."),
         technique="Coq proof about an executable Gallina model + differential correspondence check (vm_compute) + Python oracle",
         design_ref="DESIGN.md section 6 (C07), 3.2, 3.4",
     )
